@@ -330,6 +330,27 @@ async fn run_config(rep: &mut Report, sub_seed: u64, strategy: &'static str, red
                 }
                 ctx.read_back(&mut rng, k, val, wname, vname).await;
             }
+            // MGET with a single key (a fan-out command of width one)
+            {
+                let (r1, _) = ctx.via(&mut rng, vec![b("MGET"), k1.clone()]).await;
+                ctx.rep.count("mget_single_key_reads_compared", 1);
+                let want1 = Resp::Arr(Array::Arr(vec![Resp::Bulk(BulkStr::Str(v.clone()))]));
+                if r1 != want1 {
+                    // the listed double-compression finding shows here as well: the element is a zstd frame of the original
+                    let frame = match &r1 {
+                        Resp::Arr(Array::Arr(items)) if items.len() == 1 => match &items[0] {
+                            Resp::Bulk(BulkStr::Str(s)) => zstd::decode_all(&s[..]).map(|d| &d == v).unwrap_or(false),
+                            _ => false,
+                        },
+                        _ => false,
+                    };
+                    ctx.rep.violation(
+                        if frame { format!("C20:read-returns-compressed-bytes:redirect={}", ctx.redirect) } else { format!("C20:read-differs-from-written:MGET-single-key-after-{}", wname) },
+                        format!("MGET with one key returned {}", resp_to_string(&r1)),
+                        json!({"config": ctx.cfg_desc, "writer": wname, "value_kind": vname}),
+                    );
+                }
+            }
             // MGET
             let (r, _) = ctx.via(&mut rng, vec![b("MGET"), k1.clone(), k2.clone(), format!("{{{}}}missing", tag).into_bytes()]).await;
             ctx.rep.count("mget_reads_compared", 1);
